@@ -672,6 +672,116 @@ def _default_parameters(model, rep):
            fn.lineno)
 
 
+REAL_TYPES = {"float", "np.float64", "np.float32", "np.double", "np.float_",
+              "'float64'", "'float32'", "'float'", "'d'", "'f'", "np.single",
+              "np.int32", "np.int64", "int", "np.int_"}
+
+
+def _value_integrity(model, rep):
+    """The assembled value is linear in the integrand values and in the
+    coefficient vectors.  On the data path (skfem/assembly) nothing may
+    (a) force values into a fixed real type - a complex coefficient vector
+    or integrand would silently lose its imaginary part - or (b) compare
+    values with an absolute constant and act on it - the result would
+    depend on the units of the mesh and of the coefficients.  Expected
+    count: zero sites; index arrays (np.int32 casts of DOF numbers) are
+    told apart by what is cast."""
+    R5 = "C01-R5"
+    nfun = 0
+    INDEXY = ("dofs", "rows", "cols", "indices", "ix", "find", "tind",
+              "elements", "facets", "nodes")
+    for fn in model.all_functions():
+        if not fn.path.startswith("skfem/assembly/"):
+            continue
+        nfun += 1
+        params = set(fn.params()) - {"self", "cls"}
+        # names holding user values: parameters and what is computed from
+        # them (one forward pass, flow-insensitive)
+        val = {p_ for p_ in params
+               if not any(k in p_.lower() for k in INDEXY)}
+        for st in sorted([n for n in walk_no_nested(fn.node)
+                          if isinstance(n, ast.Assign)],
+                         key=lambda n: n.lineno):
+            used = {x.id for x in ast.walk(st.value)
+                    if isinstance(x, ast.Name)}
+            attr_data = any(isinstance(x, ast.Attribute) and x.attr == "data"
+                            for x in ast.walk(st.value))
+            if used & val or attr_data:
+                for t in st.targets:
+                    for x in ast.walk(t):
+                        if isinstance(x, ast.Name) and isinstance(
+                                x.ctx, ast.Store):
+                            val.add(x.id)
+
+        def is_value(e):
+            for x in ast.walk(e):
+                if isinstance(x, ast.Name) and x.id in val:
+                    return True
+                if isinstance(x, ast.Attribute) and x.attr == "data":
+                    return True
+            return False
+        for n in walk_no_nested(fn.node):
+            # (a) narrowing casts
+            if isinstance(n, ast.Call):
+                f = src(n.func)
+                tkw = [k.value for k in n.keywords if k.arg == "dtype"]
+                if f in ("np.asarray", "np.array", "np.ascontiguousarray",
+                         "np.asanyarray") and n.args and tkw and \
+                        src(tkw[0]) in REAL_TYPES and is_value(n.args[0]) \
+                        and not src(tkw[0]).startswith(("np.int", "int")):
+                    rep.fail(R5, fn.path, fn.short(),
+                             f"{fn.short()}:cast:{src(n)[:40]}",
+                             f"'{src(n)[:70]}' forces a value on the "
+                             f"assembly data path into a real type: a "
+                             f"complex coefficient vector / integrand "
+                             f"loses its imaginary part (with a warning at "
+                             f"most)", n.lineno)
+                if isinstance(n.func, ast.Attribute) and \
+                        n.func.attr == "astype" and n.args and \
+                        src(n.args[0]) in REAL_TYPES and \
+                        not src(n.args[0]).startswith(("np.int", "int")) \
+                        and is_value(n.func.value):
+                    rep.fail(R5, fn.path, fn.short(),
+                             f"{fn.short()}:cast:{src(n)[:40]}",
+                             f"'{src(n)[:70]}' forces a value on the "
+                             f"assembly data path into a real type",
+                             n.lineno)
+                if f in ("np.real", "np.float64", "np.float32") and n.args \
+                        and is_value(n.args[0]):
+                    rep.fail(R5, fn.path, fn.short(),
+                             f"{fn.short()}:cast:{src(n)[:40]}",
+                             f"'{src(n)[:70]}' drops the imaginary part of "
+                             f"a value on the assembly data path", n.lineno)
+            # (b) absolute thresholds
+            if isinstance(n, ast.Compare) and len(n.ops) == 1 and isinstance(
+                    n.ops[0], (ast.Lt, ast.LtE, ast.Gt, ast.GtE)):
+                a, b = n.left, n.comparators[0]
+                for v, c in ((a, b), (b, a)):
+                    const = (isinstance(c, ast.Constant) and isinstance(
+                        c.value, (int, float)) and c.value != 0) or any(
+                        isinstance(x, ast.Attribute) and x.attr in (
+                            "eps", "tiny", "resolution")
+                        for x in ast.walk(c))
+                    valued = any(
+                        isinstance(x, ast.Attribute) and x.attr == "data"
+                        for x in ast.walk(v)) or (
+                        isinstance(v, ast.Call) and src(v.func) in (
+                            "np.abs", "abs", "np.absolute") and is_value(v))
+                    if const and valued:
+                        rep.fail(R5, fn.path, fn.short(),
+                                 f"{fn.short()}:threshold:{src(n)[:40]}",
+                                 f"'{src(n)[:70]}' compares assembled "
+                                 f"values with an absolute constant: "
+                                 f"whether an entry is kept depends on the "
+                                 f"units of the mesh and the coefficients "
+                                 f"(small-unit geometry loses legitimate "
+                                 f"entries)", n.lineno)
+    rep.ok(R5, "assembly:value-integrity",
+           f"{nfun} functions under skfem/assembly: no cast of a value to a "
+           f"fixed real type, no absolute threshold on assembled values")
+    rep.units("functions scanned for value integrity", nfun)
+
+
 def run(model: Model, rep, tier: str) -> None:
     rep.rule("C01-R1", "roles: rows<-test DOFs, cols<-trial DOFs for the "
              "local functions the integrand was called with (trial first); "
@@ -757,6 +867,9 @@ def run(model: Model, rep, tier: str) -> None:
     _default_parameters(model, rep)
     _normalize_rule(model, rep)
     _consumers(model, rep)
+    rep.rule("C01-R5", "data path keeps values intact: no cast to a fixed "
+             "real type, no absolute threshold on assembled values")
+    _value_integrity(model, rep)
     rep.require_min("C01-R1", 40)
     rep.require_min("C01-R2", 10)
     rep.require_min("C01-R3", 4)
@@ -772,6 +885,17 @@ _AD = "skfem/autodiff/__init__.py"
 _CO = "skfem/assembly/form/coo_data.py"
 _FM = "skfem/assembly/form/form.py"
 MUTANTS = [
+    ("interpolate sanitises the coefficient vector to float64",
+     ("skfem/assembly/basis/abstract_basis.py",
+      "        if w.shape[0] != self.N:\n            raise ValueError("
+      "\"Input array has wrong size.\")",
+      "        w = np.asarray(w, dtype=np.float64)\n"
+      "        if w.shape[0] != self.N:\n            raise ValueError("
+      "\"Input array has wrong size.\")"), "C01-R5"),
+    ("csr conversion drops entries below machine epsilon",
+     ("skfem/assembly/form/coo_data.py", "        K.eliminate_zeros()\n",
+      "        K.data[np.abs(K.data) < np.finfo(np.float64).eps] = 0.\n"
+      "        K.eliminate_zeros()\n"), "C01-R5"),
     ("bilinear: slot stride uses the trial size",
      (_B, "                ixs = slice(nt * (ubasis.Nbfun * i + j),\n"
       "                            nt * (ubasis.Nbfun * i + j + 1))",
